@@ -838,6 +838,9 @@ impl gen::CELVisitorCompat<'_> for Parser {
         let token = ctx.tok.as_ref().expect("Has to have int!");
         let val = match if let Some(string) = string.strip_prefix("0x") {
             i64::from_str_radix(string, 16)
+        } else if let Some(string) = string.strip_prefix("-0x") {
+            // keep the sign with the digits so that the most negative int stays in range
+            i64::from_str_radix(&format!("-{string}"), 16)
         } else {
             string.parse::<i64>()
         } {
